@@ -211,6 +211,10 @@ func propC02() *Prop {
 					js = append(js, j)
 				}
 			}
+			js = append(js, lbJob("C02/dispatch[ip_hash,N=4,2-byte client]", "VerifC02Dispatch", 3, 4, 2))
+			if tier == "thorough" {
+				js = append(js, lbJob("C02/dispatch[ip_hash,N=6,1-byte client]", "VerifC02Dispatch", 3, 6, 1))
+			}
 			for _, s := range []int64{0, 1, 2} {
 				js = append(js, lbJob(fmt.Sprintf("C02/dispatch-after-history[%s,N=2,k=%d]", strategyNames[s], tierPick(tier, 4, 5)), "VerifC02History", s, tierPick(tier, 4, 5)))
 			}
@@ -247,6 +251,11 @@ func propC05() *Prop {
 				js = append(js, job("C05b/wrr-cycle[N=4,w<=4]", "loadbalancer", "VerifC05WRRCycle", 4, 4))
 			}
 			js = append(js, neg(job("C05b/negative-twin", "loadbalancer", "VerifC05NegWRR")))
+			js = append(js, threadJob(rrJob(lbJob("C05a/round_robin-concurrent-pickers[N=2,2 threads x 1]", "VerifC05RRConcurrent", 2, 2, 1)), 3))
+			js = append(js, threadJob(rrJob(lbJob("C05a/round_robin-concurrent-pickers[N=2,2 threads x 2]", "VerifC05RRConcurrent", 2, 2, 2)), int(tierPick(tier, 2, 3))))
+			if tier == "thorough" {
+				js = append(js, threadJob(rrJob(lbJob("C05a/round_robin-concurrent-pickers[N=3,3 threads x 1]", "VerifC05RRConcurrent", 3, 3, 1)), 2))
+			}
 			js = append(js, job(fmt.Sprintf("C05c/wrr-bounded-drift-after-any-history[h=%d ops over add/remove/eject/recover/pick,T=6]", tierPick(tier, 2, 3)), "loadbalancer", "VerifC05WRRHistory", tierPick(tier, 2, 3), 6))
 			js = append(js, job("C05c/wrr-bounded-drift-after-eject-recover[N=2,h=12,T=8]", "loadbalancer", "VerifC05WRRDrift", 2, 12, 8))
 			js = append(js, job(fmt.Sprintf("C05c/wrr-bounded-drift-after-eject-recover[N=3,h=%d,T=%d]", tierPick(tier, 12, 24), tierPick(tier, 8, 12)), "loadbalancer", "VerifC05WRRDrift", 3, tierPick(tier, 12, 24), tierPick(tier, 8, 12)))
@@ -335,6 +344,7 @@ func propC04() *Prop {
 				}
 			}
 			js = append(js, threadJob(lbJob("C04c/expiry-check-racing-a-fresh-ejection", "VerifC04Race"), int(tierPick(tier, 2, 3))))
+			js = append(js, threadJob(lbJob("C04d/concurrent-failed-responses-at-the-threshold", "VerifC04ConcurrentFailures"), int(tierPick(tier, 2, 3))))
 			for _, j := range js {
 				j.MaxPaths = 400000
 			}
@@ -380,6 +390,8 @@ func propC13() *Prop {
 				}
 			}
 			js = append(js, threadJob(lbJob("C13b/two-interleaved-requests[gauge and mirror at quiescence]", "VerifC13Interleaved"), int(tierPick(tier, 2, 3))))
+			ji := lbJob("C13a/accounting[round_robin,passive,k=2,healthy,backend may send an interim 103 first]", "VerifC13Accounting", 0, 4+8, 2, 0)
+			js = append(js, ji)
 			j3 := lbJob("C13a/accounting[round_robin,breaker,k=3,healthy,success_threshold 1..2: reaches the half-open 429]", "VerifC13Accounting", 0, 1, 3, 0)
 			j3.MaxPaths = 400000
 			js = append(js, j3)
@@ -402,7 +414,7 @@ func propC01() *Prop {
 			js = append(js, lbJob(fmt.Sprintf("C01a/writer-transparency[k=%d]", tierPick(tier, 3, 4)), "VerifC01Writer", tierPick(tier, 3, 4)))
 			js = append(js, lbJob("C01c/no-rewriting-hooks", "VerifC03Timeouts"))
 			js = append(js, job("C01b/middleware-transparency", "logging", "VerifC01Middleware"))
-			js = append(js, mainJob("C01d/full-handler-stack[plugins -> middleware -> balancer -> scripted backend]", "VerifStack", 0, tierPick(tier, 2, 3)))
+			js = append(js, mainJob("C01d/full-handler-stack[plugins -> middleware -> balancer -> scripted backend]", "VerifStack", 0, tierPick(tier, 2, 3), 0))
 			return js
 		},
 		Assumptions: append([]string{"claimed for the Helios-owned layers between net/http and httputil.ReverseProxy only: the status-capturing responseWriter, RequestContextMiddleware, and the per-backend proxy construction; hop-by-hop handling, framing, HTTP/2 and the Transport are the Go standard library and are trusted", "the client connection is a recording ResponseWriter implementing net/http's documented contract (first final WriteHeader wins and freezes the header snapshot, Write/Flush imply 200, 1xx are interim)", "flush requests are issued through the real http.NewResponseController(...).Flush() as ReverseProxy does"}, commonAssumptions...),
@@ -429,7 +441,7 @@ func propC03() *Prop {
 				}
 			}
 			js = append(js, lbJob("C03/timeouts-never-disabled", "VerifC03Timeouts"))
-			js = append(js, mainJob("C03/full-handler-stack[breaker+limiter+passive]", "VerifStack", 7, 2))
+			js = append(js, mainJob("C03/full-handler-stack[breaker+limiter+passive]", "VerifStack", 7, 2, 0))
 			return js
 		},
 		Assumptions: append([]string{"fault alphabet at the handler interface: backend answers any status 200..599 (5xx storm), connection refused (default error handler -> 502), response aborted mid-body (panic(http.ErrAbortHandler)); ReverseProxy.ServeHTTP replaced by the scripted model, natively the real ReverseProxy over a scripted RoundTripper", "network-level behaviour (hangs, slow bodies, resets, the latency bound itself) happens inside net/http's Transport and is trusted to the strictly positive timeouts established by C03/timeouts-never-disabled", "timeout settings up to 2^31 seconds"}, commonAssumptions...),
@@ -448,7 +460,9 @@ func propC16() *Prop {
 			return []*sym.Job{
 				job("C16a/propagation", "logging", "VerifC16Propagation"),
 				job("C16b/identifier-injectivity", "logging", "VerifC16Unique"),
-				mainJob("C16c/every-response-path[full handler stack: proxied, 401, 413, 429, 502, 503]", "VerifStack", 3, 2),
+				job("C16b/uniqueness-across-requests[same client request ID]", "logging", "VerifC16TwoRequests"),
+				mainJob("C16c/every-response-path[full handler stack: proxied, 401, 413, 429, 502, 503]", "VerifStack", 3, 2, 0),
+				mainJob("C16c/every-response-path[backend may send an interim 103 first]", "VerifStack", 0, 1, 1),
 				neg(job("C16b/negative-twin", "logging", "VerifC16NegUnique")),
 			}
 		},
@@ -528,7 +542,7 @@ func propC17() *Prop {
 				js = append(js, job(fmt.Sprintf("C17b/fail-closed[k=%d]", k), "plugins", "VerifC17FailClosed", k))
 			}
 			js = append(js, mainJob("C17b/buildHandler-propagates-the-error", "VerifC18Starts", 0))
-			js = append(js, mainJob("C17a/rejection-through-the-real-handler-stack", "VerifStack", 0, 2))
+			js = append(js, mainJob("C17a/rejection-through-the-real-handler-stack", "VerifStack", 0, 2, 0))
 			js = append(js, neg(job("C17/negative-twin", "plugins", "VerifC17Neg")))
 			for _, j := range js {
 				j.MaxPaths = 1000000
@@ -671,7 +685,7 @@ var pairNames = []string{
 	"GetMetrics || RecordBackendRequest+UpdateBackendHealth+UpdateBackendConnections", "Allow || Allow (existing bucket)", "Allow || Allow (first requests)", "Allow || cleanup",
 	"Execute || Execute (LB callback installed)", "Execute || State+Counts", "pool Get || Put", "pool Put || cleanup", "pool Get || Shutdown", "AddBackend || NextBackend+ListBackends",
 	"RemoveBackend || NextBackend+ListBackends", "SetStrategy || NextBackend+ListBackends", "IsBackendHealthy(expiry) || MarkBackendUnhealthy", "ServeHTTP || ServeHTTP", "RecordRequest/Response || GetMetrics",
-	"ListBackends || MarkBackendUnhealthy (after an expired window)",
+	"ListBackends || MarkBackendUnhealthy (after an expired window)", "Execute || Execute inside a half-open episode (max_requests 3)",
 }
 
 func propC12() *Prop {
